@@ -30,7 +30,9 @@ RULE = (
     "evidence. REPORTED LITERALS T: 'noq' and semiring-'q': literals on choice atoms (a name shared by k duplicate "
     "probabilistic facts denotes k independent choices: maxsat lists one literal per choice -> at least #positive "
     "of them true and #negative false; semiring returns a set -> only-positive = all true, only-negative = all "
-    "false, both = at least one each); maxsat-'q': truth values of the query atoms. Required: (1) some world of E "
+    "false, both = at least one each; a literal whose name is not a choice atom of the ground program but a "
+    "ground atom of the program - the semiring mode names a choice atom after the head it alone defines - is read "
+    "as the truth value of that atom); maxsat-'q': truth values of the query atoms. Required: (1) some world of E "
     "agrees with T; (2) some such world w has P_D(w) >= (1-tol)*max_{E} P_D; (3) the reported probability equals "
     "P_D(w) for such a w (rel. 1e-9; semiring mode, whose NNF may omit atoms the evidence formula does not need: each "
     "choice of D on which the evidence does not depend may either be counted at a most probable value or be left "
@@ -129,6 +131,18 @@ def assignment_mask(lay, dref, by_name, lits, semantics):
         npos, nneg = per[text]
         targets = by_name.get(text)
         if not targets:
+            if text in lay.atom_by_text:
+                # Not the name of a probabilistic atom of the ground program, but a ground atom of the program:
+                # the semiring mode reports a choice atom under the user-level name of the head it defines when
+                # that head has no other node of its own (LogicFormula.add_or renames the single child of a
+                # compacted disjunction, e.g. '\+r' for the head-0 choice of '0.0::r; 0.0::p.').  The literal is
+                # read as what it says: the truth value of that atom.
+                m = lay.atom_mask(text)
+                if npos:
+                    mask &= m
+                if nneg:
+                    mask &= lay.full & ~m
+                continue
             unknown.append(text)
             continue
         if len(targets) == 1:
